@@ -168,6 +168,19 @@ def _find_first(root, tag):
     return None
 
 
+def _check_unique_ids(root, tag, id_attr):
+    """`--id-attr:<name> <node>` registers the attribute of every such element as an ID; xmlsec1 gives up when two
+    of them carry the same value ("Error: duplicate ID attribute")."""
+    seen = set()
+    for e in root.iter(tag):
+        v = e.get(id_attr)
+        if v is None:
+            continue
+        if v in seen:
+            raise ToolError('duplicate ID attribute "%s"' % v)
+        seen.add(v)
+
+
 def _select_node(root, tag, id_attr, node_id):
     if node_id is None:
         return root
@@ -245,6 +258,7 @@ def verify_document(data, pub, node_name, id_attr, node_id):
     """-> (ok, n_ok, n_all).  Raises ToolError for structural failures."""
     root = _parse(data)
     tag = _split_node_name(node_name)
+    _check_unique_ids(root, tag, id_attr)
     node = _select_node(root, tag, id_attr, node_id)
     if node is None:
         raise ToolError("failed to find node with id %r" % node_id)
